@@ -462,19 +462,21 @@ def sp_store_lemmas(ip, st, pos, kws):
 # property text C08 / docstring: UpdateContext changes exactly the addressed item to the given value (recursively: the
 # existing items of the addressed sub-context that the update does not overwrite are kept, see update_recursively) and
 # leaves the data and every other item untouched; the sub-context is always created.
-UPDPATH = ("(define-fun-rec updpath ((x Val) (ks %s) (i Int) (n Int) (u Val) (r Bool)) Val "
-           "(ite (>= i (- n 1)) "
-           "(ite r (upd x (D (store emptymap (select ks i) (some u)))) (D (store (dm x) (select ks i) (some u)))) "
-           "(D (store (dm x) (select ks i) (some (updpath "
-           "(ite (and (vhas x (select ks i)) (isD (vget x (select ks i)))) (vget x (select ks i)) (D emptymap)) "
-           "ks (+ i 1) n u r))))))" % KARR)
+def updpath_def(x, ks, i, n, u, r):
+    """definition of the reference function updpath at these arguments (one unfolding, as for diff / upd in C07.py)"""
+    k = "(select %s %s)" % (ks, i)
+    return ("(= (updpath {x} {ks} {i} {n} {u} {r}) (ite (>= {i} (- {n} 1)) "
+            "(ite {r} (upd {x} (D (store emptymap {k} (some {u})))) (D (store (dm {x}) {k} (some {u})))) "
+            "(D (store (dm {x}) {k} (some (updpath "
+            "(ite (and (vhas {x} {k}) (isD (vget {x} {k}))) (vget {x} {k}) (D emptymap)) "
+            "{ks} (+ {i} 1) {n} {u} {r}))))))").format(x=x, ks=ks, i=i, n=n, u=u, r=r, k=k)
 
 
 def declare_updpath(reg):
     from pyvc.dicts import declare_paths
     declare_paths(reg)
     declare_upd(reg)
-    reg.fun_decl("updpath", UPDPATH)
+    reg.ufun("updpath", ["Val", KARR, "Int", "Int", "Val", "Bool"], "Val")
 
 
 def _updpath_term(ip, st, pos):
@@ -498,6 +500,7 @@ def sp_rest_done(ip, st, pos, kws):
     u, r = dterm(ip, st, pos[4]).s, ip.truth(st, pos[5]).s
     sub = "(the (walka %s %s 0 %s))" % (c, ks, i)
     inner = "(updpath %s %s %s %s %s %s)" % (sub, ks, i, n, u, r)
+    _instance(ip, st, updpath_def(sub, ks, i, n, u, r))
     _instance(ip, st, w3(c, ks, "0", "(- %s 1)" % i, inner))
     _instance(ip, st, walka_split(c, ks, "0", "(- %s 1)" % i, i))
     return Opaque(T("(wseta %s %s 0 %s %s)" % (c, ks, i, inner), "Val"))
@@ -552,9 +555,495 @@ def register_update_context(ix):
         ]))
 
 
+# ------------------------------------------------------------------------------------------------------------ to_string
+# property text C08: to_string is canonical (equal dictionaries give equal strings whatever their key order, different
+# ones give different strings).  The function delegates to json.dumps; what makes the text canonical are the keyword
+# arguments of that call: sort_keys=True (at EVERY level of nesting: that is json's own contract, tier A) and fixed
+# separators.  Library contract (tier A): json.dumps(x, sort_keys=s, separators=sep, skipkeys=k) returns the text
+# json_text(x, s, compact) or raises TypeError / ValueError / OverflowError for values it cannot serialise.
+def lib_json_dumps(ip, st, pos, kws):
+    from pyvc.smt import TRUE, FALSE, NOT, AND, OR
+    from pyvc.sym import Tup, NoneV, NONE, Bool as B_
+    from pyvc.calls import eval_spec
+    reg = ip.reg
+    reg.need_val()
+    allkw = {"skipkeys": B_(FALSE), "sort_keys": B_(FALSE), "separators": NONE}
+    for k, v in kws.items():
+        if k not in allkw:
+            raise Exception("json.dumps keyword %s is not modelled" % k)
+        allkw[k] = v
+    if len(pos) != 1:
+        raise Exception("json.dumps: one positional argument expected")
+    ip.assumptions.add("library contract (tier A): json.dumps(x, sort_keys=True, separators=(',', ':')) is a canonical "
+                       "text of x (keys sorted at every level); it raises TypeError / ValueError / OverflowError for "
+                       "values it cannot serialise")
+    if ip.c is not None and not ip.spec_mode and "json.dumps" in ip.c.at_call and st.depth == 0:
+        from pyvc.sym import PyDictCell
+        env = dict(ip.spec_env(st))
+        env["call_args"] = Tup(list(pos))
+        env["call_kw"] = ip.new_cell(st, PyDictCell(allkw))
+        for k, cl in enumerate(ip.c.at_call["json.dumps"]):
+            ip.emit("call-site", "at-call json.dumps#%d" % k, st, eval_spec(ip, st, env, cl, old=ip.entry), {"clause": cl})
+    x = dterm(ip, st, pos[0])
+    sep = allkw["separators"]
+    compact = isinstance(sep, Tup) and len(sep.items) == 2 and all(isinstance(i, Str) for i in sep.items) \
+        and (sep.items[0].s, sep.items[1].s) == (",", ":")
+    f = reg.ufun("json_text", ["Val", "Bool", "Bool"], "Key")
+    outs = []
+    conds = []
+    for exc in ("TypeError", "ValueError", "OverflowError"):
+        p = reg.ufun("json_%s" % exc, ["Val"], "Bool")
+        c = T("(%s %s)" % (p, x.s), "Bool")
+        bad = st.fork(AND(*([NOT(y) for y in conds] + [c])), "json%s." % exc[:4])
+        if ip.may_catch(bad, exc):
+            ip.raise_(bad, exc)
+        else:
+            ip.emit("safety", "json.dumps does not raise %s" % exc, bad, FALSE)
+        conds.append(c)
+    st.assume(AND(*[NOT(y) for y in conds]))
+    res = Opaque(T("(%s %s %s %s)" % (f, x.s, ip.truth(st, allkw["sort_keys"]).s, "true" if compact else "false"), "Key"))
+    return [(st, res)]
+
+
+def sp_json_canonical(ip, st, pos, kws):
+    """json_canonical(x): the json.dumps text of x with sorted keys (at every level) and the separators (',', ':')"""
+    f = ip.reg.ufun("json_text", ["Val", "Bool", "Bool"], "Key")
+    return Opaque(T("(%s %s true true)" % (f, dterm(ip, st, pos[0]).s), "Key"))
+
+
+def sp_json_unserializable(ip, st, pos, kws):
+    from pyvc.smt import OR
+    x = dterm(ip, st, pos[0])
+    return Bool(OR(*[T("(%s %s)" % (ip.reg.ufun("json_%s" % e, ["Val"], "Bool"), x.s), "Bool")
+                     for e in ("TypeError", "ValueError", "OverflowError")]))
+
+
+def register_to_string(ix):
+    ix.lib[("json", "dumps")] = lib_json_dumps
+    ix.spec_names["json_canonical"] = sp_json_canonical
+    ix.spec_names["json_unserializable"] = sp_json_unserializable
+    ix.add(Contract(
+        CF, "to_string", props=["C08"], params={"d": "Val"}, result="Str",
+        raises={"LenaValueError": "json_unserializable(d)"},
+        ensures=["result == json_canonical(d)"],
+        # obligations on the library call itself (the library's part is tier A)
+        at_call={"json.dumps": ["call_args[0] == d", "call_kw['sort_keys'] == True",
+                                "call_kw['separators'] == (',', ':')", "call_kw['skipkeys'] == False"]},
+        notes="canonicity = json.dumps' own contract for sort_keys=True (tier A); proved here: the call passes the "
+              "dictionary itself with sort_keys=True and fixed separators, every serialisation error becomes "
+              "LenaValueError, nothing else escapes"))
+
+
+# ------------------------------------------------------------------------------------------- str_to_list, str_to_dict
+# docstrings: str_to_list(s) = the dot-separated components of s ([] for the empty string); str_to_dict(s, value) = nested
+# dictionaries, one level per component, the value under the deepest key (without a value the last component is the
+# value).  `parts` = components (+ value) is a list of context values (strings embedded by key_as_val); reference:
+# nestl(l) = {l[0]: l[1]} if len(l) <= 2 else {l[0]: nestl(l[1:])}.
+def declare_nestl(reg):
+    reg.need_val()
+    ls = reg.lst("Val")
+    reg.ufun("key_as_val", ["Key"], "Val")
+    reg.ufun("val_as_key", ["Val"], "Key")
+    ax = T("(forall ((k Key)) (! (= (val_as_key (key_as_val k)) k) :pattern ((key_as_val k))))", "Bool")
+    if not any(a.s == ax.s for a in reg.axioms):
+        reg.axioms.append(ax)
+    reg.ufun("nestl", [ls], "Val")
+    return ls
+
+
+def nestl_def(l, ls):
+    """definition of the reference function nestl at the list term l (one unfolding); l[1:] is the list term the engine
+    builds for that slice (the items shifted by one)"""
+    first = "(val_as_key (select (arr_{ls} {l}) 0))".format(ls=ls, l=l)
+    return ("(= (nestl {l}) (ite (<= (len_{ls} {l}) 2) "
+            "(D (store emptymap {first} (some (select (arr_{ls} {l}) 1)))) "
+            "(D (store emptymap {first} (some (nestl (mk_{ls} (lambda ((si Int)) (select (arr_{ls} {l}) (+ si 1))) "
+            "(- (len_{ls} {l}) 1))))))))").format(ls=ls, l=l, first=first)
+
+
+def sp_nestl(ip, st, pos, kws):
+    from pyvc.speclib import lst_term
+    ls = declare_nestl(ip.reg)
+    l = lst_term(ip, st, pos[0], ls).s
+    if not ip.bound_stack:
+        ax = T(nestl_def(l, ls), "Bool")
+        if not any(x.s == ax.s for x in st.pc):
+            st.pc.append(ax)
+    return Opaque(T("(nestl %s)" % l, "Val"))
+
+
+def sp_is_key(ip, st, pos, kws):
+    """is_key(v): the context value v is a string (so it can be a dictionary key)"""
+    declare_nestl(ip.reg)
+    v = dterm(ip, st, pos[0]).s
+    return Bool(T("(= %s (key_as_val (val_as_key %s)))" % (v, v), "Bool"))
+
+
+# the same dictionary written over the components and the value: nestk(ks, i, n, v) = {ks[i]: v} if i >= n - 1 else
+# {ks[i]: nestk(ks, i + 1, n, v)}  (uninterpreted symbol + its definition at the arguments it is applied to)
+def declare_nestk(reg):
+    declare_nestl(reg)
+    reg.need(KARR)
+    reg.ufun("nestk", [KARR, "Int", "Int", "Val"], "Val")
+
+
+def nestk_def(ks, i, n, v):
+    k = "(select %s %s)" % (ks, i)
+    return ("(= (nestk {ks} {i} {n} {v}) (ite (>= {i} (- {n} 1)) (D (store emptymap {k} (some {v}))) "
+            "(D (store emptymap {k} (some (nestk {ks} (+ {i} 1) {n} {v}))))))").format(ks=ks, i=i, n=n, v=v, k=k)
+
+
+def n1_premise(l, ls, ks, off, m, v):
+    return ("(and (>= {m} 1) (= (len_{ls} {l}) (+ {m} 1)) (= (select (arr_{ls} {l}) {m}) {v}) "
+            "(forall ((nq Int)) (! (=> (and (<= 0 nq) (< nq {m})) (= (select (arr_{ls} {l}) nq) "
+            "(key_as_val (select {ks} (+ {off} nq))))) :pattern ((select (arr_{ls} {l}) nq)))))").format(
+        l=l, ls=ls, ks=ks, off=off, m=m, v=v)
+
+
+def n1(l, ls, ks, off, m, v):
+    """N1: a list of m embedded components ks[off..off+m) followed by v nests to nestk(ks, off, off+m, v)"""
+    return "(=> %s (= (nestl %s) (nestk %s %s (+ %s %s) %s)))" % (n1_premise(l, ls, ks, off, m, v), l, ks, off, off, m, v)
+
+
+def lem_n1(ip, st):
+    reg = ip.reg
+    declare_nestk(reg)
+    ls = reg.lst("Val")
+    l, ks = reg.new("l", ls).s, reg.new("ks", KARR).s
+    off, m, v = reg.new("off", "Int").s, reg.new("m", "Int").s, reg.new("v", "Val").s
+    tail = "(mk_{ls} (lambda ((si Int)) (select (arr_{ls} {l}) (+ si 1))) (- (len_{ls} {l}) 1))".format(ls=ls, l=l)
+    _hyp(st, nestl_def(l, ls))
+    _hyp(st, nestk_def(ks, off, "(+ %s %s)" % (off, m), v))
+    # induction on m: the statement for the tail of the list (one component fewer, offset + 1)
+    _hyp(st, n1(tail, ls, ks, "(+ %s 1)" % off, "(- %s 1)" % m, v))
+    _finish(ip, st, "N1: nestl(components + [value]) = nestk(components, value)", n1(l, ls, ks, off, m, v),
+            cases=["(= %s 1)" % m, "(not (= %s 1))" % m])
+
+
+def sp_nestk(ip, st, pos, kws):
+    """nestk(keys, i, n, v): nested dictionaries {keys[i]: {... {keys[n-1]: v}}} (reference function of str_to_dict)"""
+    declare_nestk(ip.reg)
+    ks, i, n, v = _karr(ip, st, pos[0]).s, ip.num(pos[1]).s, ip.num(pos[2]).s, dterm(ip, st, pos[3]).s
+    if not ip.bound_stack:
+        ax = T(nestk_def(ks, i, n, v), "Bool")
+        if not any(x.s == ax.s for x in st.pc):
+            st.pc.append(ax)
+    return Opaque(T("(nestk %s %s %s %s)" % (ks, i, n, v), "Val"))
+
+
+def sp_nest_lemma(ip, st, pos, kws):
+    """nest_lemma(l, keys, off, m, v): True; brings lemma N1 at these arguments into the hypotheses"""
+    from pyvc.speclib import lst_term
+    declare_nestk(ip.reg)
+    ls = ip.reg.lst("Val")
+    lt = lst_term(ip, st, pos[0], ls)
+    return _instance(ip, st, n1(lt.s, ls, _karr(ip, st, pos[1]).s, ip.num(pos[2]).s, ip.num(pos[3]).s, dterm(ip, st, pos[4]).s))
+
+
+def sp_keys_as_vals(ip, st, pos, kws):
+    """keys_as_vals(keys): the list of strings as a list of context values (the term the engine builds at a call)"""
+    from pyvc.speclib import lst_term
+    from pyvc.dicts import key_as_val
+    reg = ip.reg
+    ls = reg.lst("Val")
+    kt = lst_term(ip, st, pos[0], reg.lst("Key"))
+    arr = "(lambda ((pi Int)) %s)" % key_as_val(ip, T("(select %s pi)" % reg.l_arr(kt).s, "Key")).s
+    return ip.lst_view(T("(mk_%s %s %s)" % (ls, arr, reg.l_len(kt).s), ls))
+
+
+def sp_key_value(ip, st, pos, kws):
+    """key_value(k): the string k as a context value"""
+    from pyvc.dicts import key_as_val
+    return Opaque(key_as_val(ip, ip.key_term(pos[0])))
+
+
+def register_str(ix):
+    ix.spec_names["nestl"] = sp_nestl
+    ix.spec_names["is_key"] = sp_is_key
+    for n, f in [("nestk", sp_nestk), ("nest_lemma", sp_nest_lemma), ("keys_as_vals", sp_keys_as_vals),
+                 ("key_value", sp_key_value)]:
+        ix.spec_names[n] = f
+    ix.lemmas.append(Lemma("str_to_dict: nestl over parts = nestk over components and value (N1)", CF, ["C08"], lem_n1,
+                           notes="induction on the number of components; hypothesis = the statement for the tail"))
+    KS = "split_dots(s)"
+    ix.add(Contract(
+        CF, "str_to_dict", props=["C08"], dict_model="Val",
+        cases=[
+            Contract(CF, "str_to_dict", name="str_to_dict[s, value]", dict_model="Val",
+                     params={"s": "Str", "value": "Val"}, result="Dict",
+                     raises={"LenaValueError": "s == ''"},
+                     ensures=["s != '' implies nest_lemma(local(parts), %s, 0, len(%s), value)" % (KS, KS),
+                              "result == nestk(%s, 0, len(%s), value)" % (KS, KS)]),
+            Contract(CF, "str_to_dict", name="str_to_dict[s]", dict_model="Val",
+                     params={"s": "Str", "value": SENT}, result="Dict",
+                     raises={"LenaValueError": "len(%s) < 2 and s != ''" % KS},
+                     ensures=["s == '' implies result == emptydict()",
+                              "s != '' implies nest_lemma(keys_as_vals(%s), %s, 0, len(%s) - 1, key_value(%s[len(%s) - 1]))"
+                              % (KS, KS, KS, KS, KS),
+                              "s != '' implies result == nestk(%s, 0, len(%s) - 1, key_value(%s[len(%s) - 1]))"
+                              % (KS, KS, KS, KS)]),
+        ]))
+    ix.add(Contract(
+        CF, "str_to_list", props=["C08"], params={"s": "Str"}, result="Lst[Key]", raises={},
+        ensures=["s == '' implies len(result) == 0", "s != '' implies same(result, split_dots(s))"]))
+    ix.add(Contract(
+        CF, "str_to_dict.nest_list", props=["C08"], dict_model="Val",
+        params={"d": "Dict", "l": "Lst[Val]"}, result="Dict", result_alias="d",
+        requires=["d == emptydict()", "all(is_key(l[i]) for i in range(len(l) - 1))"],
+        raises={"LenaValueError": "len(l) < 2"}, raises_frame="pure",
+        ensures=["d == nestl(l)"], modifies=["d"],
+        notes="the recursive call on l[1:] goes through this contract (termination: the list gets shorter; not an "
+              "obligation of the engine)"))
+
+
+# ------------------------------------------------ the law  get_recursively(str_to_dict(s, v), s) is v  (property C08)
+def n2(L, i, n, v):
+    """N2: following the components L[i..n) through nestk(L, i, n, v) ends at v"""
+    ls = "Lst_Key"
+    return ("(=> (and (<= 0 {i}) (< {i} {n})) (= (walk (nestk (arr_{ls} {L}) {i} {n} {v}) {L} {i} {n}) (some {v})))"
+            ).format(L=L, i=i, n=n, v=v, ls=ls)
+
+
+def lem_n2(ip, st):
+    from contracts.C08 import declare_walk
+    reg = ip.reg
+    declare_nestk(reg)
+    ls = declare_walk(reg)
+    L, i, n, v = reg.new("L", ls).s, reg.new("i", "Int").s, reg.new("n", "Int").s, reg.new("v", "Val").s
+    A = "(arr_%s %s)" % (ls, L)
+    _hyp(st, nestk_def(A, i, n, v))
+    _hyp(st, n2(L, "(+ %s 1)" % i, n, v))          # induction on n - i
+    _finish(ip, st, "N2: walk(nestk(ks, i, n, v), ks, i, n) == v", n2(L, i, n, v),
+            cases=["(= %s (- %s 1))" % (i, n), "(not (= %s (- %s 1)))" % (i, n)])
+
+
+def lem_law(ip, st):
+    """over the CONTRACTS of str_to_dict and get_recursively: for a non-empty dotted string s and any value v,
+    get_recursively(str_to_dict(s, v), s) raises nothing and returns v"""
+    from pyvc.calls import apply_contract
+    from pyvc.interp import VC
+    from pyvc.smt import FALSE, EQ, NOT
+    from contracts.C08 import declare_walk
+    reg = ip.reg
+    declare_nestk(reg)
+    ls = declare_walk(reg)
+    s = Opaque(reg.new("s", "Key"))
+    v = Opaque(reg.new("v", "Val"))
+    st.assume(NOT(EQ(s.t, reg.key(""))))
+    ip.entry = st.copy()
+    ip.oldst = ip.entry
+    sd = ip.contracts.by_key[(CF, "str_to_dict")]
+    gr = ip.contracts.by_key[(CF, "get_recursively")]
+    n0 = len(ip._exc_out)
+    (s1, d), = apply_contract(ip, st, sd, [s, v], {})
+    (s2, r), = apply_contract(ip, s1, gr, [d, s], {})
+    # N2 at the components of s (proved as a Lemma of this file)
+    L = "(ksplit %s)" % s.t.s
+    s2.assume(T(n2(L, "0", "(len_%s %s)" % (ls, L), v.t.s), "Bool"))
+    for sx, exc in ip._exc_out[n0:]:
+        sx.assume(T(n2(L, "0", "(len_%s %s)" % (ls, L), v.t.s), "Bool"))
+        ip.emit("lemma", "no %s: the exceptional outcome is infeasible" % exc.cls, sx, FALSE)
+    ip._exc_out = ip._exc_out[:n0]
+    ip.emit("lemma", "get_recursively(str_to_dict(s, v), s) == v", s2, EQ(dterm(ip, s2, r), v.t))
+    ip.vcs.append(VC("cover requires", "cover", list(s2.pc), FALSE, ""))
+    ip.vcs.append(VC("canary ensures False#0", "canary", list(s2.pc), FALSE, ""))
+
+
+def register_law(ix):
+    gr = ix.by_key[(CF, "get_recursively")]
+    gr.cases.append(Contract(
+        CF, "get_recursively", name="get_recursively[dotted string, no default]",
+        params={"d": "Val", "keys": "Str", "default": SENT}, result="Val",
+        raises={"LenaTypeError": "not isdict(d)",
+                "LenaKeyError": "walk(d, dot_components(keys), 0, len(dot_components(keys))) == absent() and isdict(d)"},
+        ensures=["present(result) == walk(d, dot_components(keys), 0, len(dot_components(keys)))"],
+        loops={2: LoopSpec(invariant=[
+            "isdict(d)",
+            "walk(d, keys, _i, len(keys)) == walk(old(d), keys, 0, len(keys))"])}))
+    ix.spec_names["dot_components"] = sp_dot_components
+    ix.lemmas.append(Lemma("str_to_dict: following the components through nestk ends at the value (N2)", CF, ["C08"],
+                           lem_n2, notes="induction on the number of remaining components"))
+    ix.lemmas.append(Lemma("law: get_recursively(str_to_dict(s, v), s) is v", CF, ["C08"], lem_law,
+                           notes="over the contracts of str_to_dict[s, value] and get_recursively[dotted string]; "
+                                 "uses lemma N2 at the components of s; `is` is value equality in the Val encoding"))
+
+
+def sp_dot_components(ip, st, pos, kws):
+    """dot_components(s): what str_to_list(s) returns: [] for the empty string, else the dot-separated components"""
+    from contracts.C08 import sp_split_dots
+    v = pos[0]
+    if isinstance(v, Str):
+        if v.s == "":
+            return ip.items_view([])
+        return sp_split_dots(ip, st, pos, kws)
+    comps = sp_split_dots(ip, st, pos, kws)
+    reg = ip.reg
+    t = comps.term
+    empty = T("(mk_%s %s 0)" % (t.sort, reg.l_arr(t).s), t.sort)
+    from pyvc.smt import ITE, EQ
+    return ip.lst_view(ITE(EQ(v.t, reg.key("")), empty, t))
+
+
+# -------------------------------------------------------------------------------------------------- format_update_with
+# docstring: update d[key] with value (a composition of str_to_dict and update_recursively) -- for a value that is no
+# formatting string.  property text C08: changes exactly the addressed item, leaves every other item untouched.
+def register_format_update_with(ix):
+    KS = "split_dots(key)"
+
+    def case(name, vty, req):
+        return Contract(CF, "format_update_with", name="format_update_with[%s]" % name, dict_model="Val",
+                        params={"key": "Str", "value": vty, "d": "Dict"}, result=None, requires=req,
+                        raises={"LenaValueError": "key == ''", "LenaTypeError": "key != '' and not isdict(d)"},
+                        raises_frame="pure",
+                        ensures=["d == upd_spec(old(d), nestk(%s, 0, len(%s), value))" % (KS, KS)]
+                        + (["value == old(value)"] if vty == "Dict" else []),
+                        modifies=["d"])
+    ix.add(Contract(CF, "format_update_with", props=["C08"], dict_model="Val",
+                    cases=[case("dictionary value", "Dict", ["isdict(value)"]),
+                           case("number", "Real", []), case("bool", "Bool", [])]))
+
+
+# -------------------------------------------------------------------------------------------------------- update_nested
+# docstring: if d has no key: d[key] = other.  Otherwise d[key] is inserted at the deepest level of other.key.key...
+# (so that it is not overridden) and d[key] becomes other.  property text C07: update_nested keeps the previous d[key]
+# reachable under the new one.  Reference: upn(x, k, v) = x with v stored under k at the deepest level of x.k.k...
+# Dictionaries are finite trees in the encoding (datatype Val): a cyclic `other` (for which the function raises
+# LenaValueError) is outside it; kdepth(x, k) = the number of nested k-levels of x.
+KDEPTH = ("(define-fun-rec kdepth ((x Val) (k Key)) Int (ite (and (isD x) (vhas x k)) "
+          "(+ 1 (ite (< (kdepth (vget x k) k) 0) 0 (kdepth (vget x k) k))) 0))")
+KCHAIN = ("(define-fun-rec kchain ((x Val) (k Key)) Bool (and (isD x) (=> (vhas x k) (kchain (vget x k) k))))")
+
+
+def declare_upn(reg):
+    from pyvc.dicts import declare_paths
+    declare_paths(reg)
+    reg.fun_decl("kdepth", KDEPTH)
+    reg.fun_decl("kchain", KCHAIN)
+    reg.ufun("upn", ["Val", "Key", "Val"], "Val")
+
+
+def upn_def(x, k, v):
+    return ("(= (upn {x} {k} {v}) (ite (vhas {x} {k}) (D (store (dm {x}) {k} (some (upn (vget {x} {k}) {k} {v})))) "
+            "(D (store (dm {x}) {k} (some {v})))))").format(x=x, k=k, v=v)
+
+
+def u1(x, k, v, lo):
+    A = "((as const %s) %s)" % (KARR, k)
+    hi = "(+ %s (kdepth %s %s))" % (lo, x, k)
+    p = "(walka %s %s %s %s)" % (x, A, lo, hi)
+    return ("(=> (kchain {x} {k}) (and (not (= {p} none)) (isD (the {p})) (not (vhas (the {p}) {k})) "
+            "(= (wseta {x} {A} {lo} {hi} (D (store (dm (the {p})) {k} (some {v})))) (upn {x} {k} {v}))))"
+            ).format(x=x, k=k, v=v, A=A, lo=lo, hi=hi, p=p)
+
+
+def walka_unfold(x, ks, i, n):
+    return ("(= (walka {x} {ks} {i} {n}) (ite (>= {i} {n}) (some {x}) (ite (and (isD {x}) (vhas {x} (select {ks} {i}))) "
+            "(walka (vget {x} (select {ks} {i})) {ks} (+ {i} 1) {n}) none)))").format(x=x, ks=ks, i=i, n=n)
+
+
+def wseta_unfold(x, ks, i, n, v):
+    return ("(= (wseta {x} {ks} {i} {n} {v}) (ite (>= {i} {n}) {v} (D (store (dm {x}) (select {ks} {i}) "
+            "(some (wseta (vget {x} (select {ks} {i})) {ks} (+ {i} 1) {n} {v}))))))").format(x=x, ks=ks, i=i, n=n, v=v)
+
+
+def kdepth_unfold(x, k):
+    return ("(= (kdepth {x} {k}) (ite (and (isD {x}) (vhas {x} {k})) "
+            "(+ 1 (ite (< (kdepth (vget {x} {k}) {k}) 0) 0 (kdepth (vget {x} {k}) {k}))) 0))").format(x=x, k=k)
+
+
+def kchain_unfold(x, k):
+    return "(= (kchain {x} {k}) (and (isD {x}) (=> (vhas {x} {k}) (kchain (vget {x} {k}) {k}))))".format(x=x, k=k)
+
+
+def lem_u1(ip, st):
+    """the recursive functions are taken as symbols with their defining equations at the terms used (their unfoldings):
+    the proof is then a fixed combination of those equations and the induction hypothesis"""
+    reg = ip.reg
+    reg.need_val()
+    reg.need(KARR)
+    reg.ufun("walka", ["Val", KARR, "Int", "Int"], "Opt")
+    reg.ufun("wseta", ["Val", KARR, "Int", "Int", "Val"], "Val")
+    reg.ufun("kdepth", ["Val", "Key"], "Int")
+    reg.ufun("kchain", ["Val", "Key"], "Bool")
+    reg.ufun("upn", ["Val", "Key", "Val"], "Val")
+    x, k, v, lo = reg.new("x", "Val").s, reg.new("k", "Key").s, reg.new("v", "Val").s, reg.new("lo", "Int").s
+    sub = "(vget %s %s)" % (x, k)
+    A = "((as const %s) %s)" % (KARR, k)
+    hi = "(+ %s (kdepth %s %s))" % (lo, x, k)
+    p1 = "(walka %s %s %s %s)" % (x, A, lo, hi)
+    Z = "(D (store (dm (the %s)) %s (some %s)))" % (p1, k, v)
+    for h in (upn_def(x, k, v), kdepth_unfold(x, k), kdepth_unfold(sub, k), kchain_unfold(x, k),
+              walka_unfold(x, A, lo, hi), wseta_unfold(x, A, lo, hi, Z)):
+        _hyp(st, h)
+    # induction on the structure of x: the statement for the sub-dictionary x[k], start index lo + 1
+    _hyp(st, u1(sub, k, v, "(+ %s 1)" % lo))
+    _finish(ip, st, "U1: storing v under k through the reference to the deepest k-level = upn", u1(x, k, v, lo),
+            cases=["(vhas %s %s)" % (x, k), "(not (vhas %s %s))" % (x, k)])
+
+
+def sp_kdepth(ip, st, pos, kws):
+    declare_upn(ip.reg)
+    return Num(T("(kdepth %s %s)" % (dterm(ip, st, pos[0]).s, ip.key_term(pos[1]).s), "Int"))
+
+
+def sp_kchain(ip, st, pos, kws):
+    declare_upn(ip.reg)
+    return Bool(T("(kchain %s %s)" % (dterm(ip, st, pos[0]).s, ip.key_term(pos[1]).s), "Bool"))
+
+
+def sp_upn(ip, st, pos, kws):
+    """upn(x, k, v): x with v stored under k at the deepest level of x.k.k... ; brings U1 at (x, k, v, 0) in"""
+    declare_upn(ip.reg)
+    x, k, v = dterm(ip, st, pos[0]).s, ip.key_term(pos[1]).s, dterm(ip, st, pos[2]).s
+    _instance(ip, st, upn_def(x, k, v))
+    _instance(ip, st, u1(x, k, v, "0"))
+    return Opaque(T("(upn %s %s %s)" % (x, k, v), "Val"))
+
+
+def register_update_nested(ix):
+    for n, f in [("kdepth", sp_kdepth), ("kchain", sp_kchain), ("upn", sp_upn)]:
+        ix.spec_names[n] = f
+    ix.lemmas.append(Lemma("update_nested: store at the deepest level = upn (U1)", CF, ["C07"], lem_u1,
+                           notes="structural induction; hypothesis = the statement for the sub-dictionary x[k]"))
+    ix.add(Contract(
+        CF, "update_nested.get_most_nested_subdict_with", props=["C07"], dict_model="Val",
+        params={"key": "Str", "d": "Dict"}, result="Dict", local_types={"nested_dicts": "Lst[Val]"},
+        requires=["kchain(d, key)"],          # other.key.key... consists of dictionaries
+        result_ref=("d", "key", "0", "kdepth(d, key)"),
+        raises={},                            # (a finite tree is never `recursive`: LenaValueError is not raised)
+        ensures=["d == old(d)", "isdict(result)", "not (key in result)"],
+        loops={0: LoopSpec(
+            cursor={"d": ("old(d)", "key", "0", "len(nested_dicts)")},
+            invariant=["walk_split(old(d), key, 0, len(nested_dicts) - 1, len(nested_dicts))",
+                       "kchain(d, key)",
+                       "kdepth(old(d), key) == len(nested_dicts) + kdepth(d, key)",
+                       "kdepth(d, key) >= 0",
+                       "all(kdepth(nested_dicts[j], key) > kdepth(d, key) for j in range(len(nested_dicts)))"],
+            decreases="kdepth(d, key)")}))
+    ix.add(Contract(
+        CF, "update_nested", props=["C07"], dict_model="Val",
+        params={"key": "Str", "d": "Dict", "other": "Dict"}, result=None,
+        requires=["isdict(d)", "kchain(other, key)"],
+        raises={},
+        ensures=["not (key in old(d)) implies other == old(other)",
+                 "not (key in old(d)) implies all_keys(lambda k: item(d, k) == (present(old(other)) if k == key else item(old(d), k)))",
+                 "(key in old(d)) implies other == upn(old(other), key, old(d)[key])",
+                 "(key in old(d)) implies all_keys(lambda k: item(d, k) == (present(upn(old(other), key, old(d)[key])) if k == key else item(old(d), k)))",
+                 # the previous d[key] is reachable under the new one: one level below the deepest key-level of other
+                 "(key in old(d)) implies store_lemmas() and "
+                 "walk_split(other, key, 0, kdepth(old(other), key), kdepth(old(other), key) + 1) implies "
+                 "walka(d[key], key, 0, kdepth(old(other), key) + 1) == present(old(d)[key])"],
+        modifies=["d", "other"]))
+
+
 def register(ix):
+    register_to_string(ix)
+    register_str(ix)
+    register_format_update_with(ix)
     register_intersection(ix)
     register_laws(ix)
     register_paths(ix)
     register_delete(ix)
     register_update_context(ix)
+    register_law(ix)
+    register_update_nested(ix)
